@@ -47,6 +47,9 @@ EDITS = [
      "        new_key = jax.random.fold_in(self.key, self.key_counter)\n        self.key_counter += 1\n        return new_key\n",
      "        self.key, new_key = jax.random.split(self.key)\n        self.key_counter += 1\n        return new_key\n",
      ["C04", "C22", "C05", "C07"]),
+    ("H12 smc: the two halves of every key split swapped (Importance / ImportanceK run_smc and run_csmc, the SampleDistribution face)",
+     "genjax/_src/inference/smc.py",
+     "        key, sub_key = jrandom.split(key)\n", "        sub_key, key = jrandom.split(key)\n", ["C26", "C30"]),
     ("H10 distribution.edit_regenerate: new value computed into differently named locals", "genjax/_src/generative_functions/distributions/distribution.py",
      "            w, new_v = self.random_weighted(key, *primals)\n            incremental_w = w - trace.get_score()\n            old_v = trace.get_retval()\n            new_trace = DistributionTrace(self, primals, new_v, w)",
      "            old_v = trace.get_retval()\n            fresh_score, fresh_value = self.random_weighted(key, *primals)\n            new_v, w = fresh_value, fresh_score\n            new_trace = DistributionTrace(self, primals, fresh_value, fresh_score)\n            incremental_w = fresh_score - trace.get_score()",
@@ -66,7 +69,8 @@ def main():
         shutil.copytree("/repo/src", D + "/src")
         p = f"{D}/src/{rel}"
         s = open(p).read()
-        if s.count(a) != 1 and not (name.startswith("H11") and s.count(a) == 5):      # (H11: every handler class)
+        if s.count(a) != 1 and not (name.startswith("H11") and s.count(a) == 5) and not (name.startswith("H12") and s.count(a) >= 4):
+            # (H11: every handler class; H12: every split of the module)
             print(name, ":: PATTERN NOT FOUND (the repository changed: adapt the edit)", s.count(a))
             continue
         open(p, "w").write(s.replace(a, b))
